@@ -157,6 +157,16 @@ def gen_model(ch: Chooser, benign: bool):
                 d["attrs"].append("target")
             if where == "module" and ch.bool(1, 3):
                 d["attrs"].append(ch.choice(["save", "volatile", "asynchronous"]))
+            if ch.bool(1, 3):
+                # two entities in one statement; an attribute statement further down names only the first
+                import copy
+                e2 = copy.deepcopy(d["ents"][0])
+                e2["name"] = name + "b"
+                d["ents"].append(e2)
+                pool = [a for a in ("target", "volatile", "asynchronous") if a not in d["attrs"] and
+                        not (a == "target" and "pointer" in d["attrs"])]
+                d["ents"][0]["extra_attrs"] = [ch.choice(pool)]
+                feats["entity-attr-stmt"] = True
         return d
 
     n = [0]
@@ -224,8 +234,8 @@ def gen_case(ch: Chooser, excl=()):
     proj_b, _ = gen_model(Chooser(data), True)
     # the same spelling choices for both variants (keyword case, attribute order, result / bind order ...)
     rbytes = bytes(reversed(data))
-    files_n, _ = render.render_project(proj_n, Chooser(rbytes), features={"comments": False, "continuations": False})
-    files_b, _ = render.render_project(proj_b, Chooser(rbytes), features={"comments": False, "continuations": False})
+    files_n, _ = render.render_project(proj_n, Chooser(rbytes), features={"comments": False, "continuations": True, "literal_split": True})
+    files_b, _ = render.render_project(proj_b, Chooser(rbytes), features={"comments": False, "continuations": True, "literal_split": True})
     options = {"project": "P", "src_dir": "./src", "output_dir": "./doc", "preprocess": False, "parallel": 0,
                "display": ["public", "private", "protected"], "proc_internals": True, "search": False, "incl_src": True}
     if len(data) and data[-1] % 3 == 0:
@@ -246,7 +256,7 @@ def gen_case(ch: Chooser, excl=()):
                 inits.append([e["name"], e["init"]])
             attrs = sorted(set(squash(a_) for a_ in d.get("attrs", [])) | ({"parameter"} if d.get("parameter") else set()) |
                            ({"optional"} if d.get("optional") else set()) |
-                           ({f"intent({d['intent']})"} if d.get("intent") else set()))
+                           ({f"intent({d['intent']})"} if d.get("intent") else set()) | set(e.get("extra_attrs", [])))
             decls.append({"name": e["name"], "base": d["ts"]["base"], "kind": squash(d["ts"].get("kind")),
                           "len": squash(d["ts"].get("len")), "proto": squash(d["ts"].get("proto")),
                           "dim": squash(e.get("dim") or d.get("dimattr")), "attrs": attrs})
